@@ -1,0 +1,656 @@
+//! Verification-only stand-in for `std::collections::{HashMap, HashSet}` (compiled only under
+//! `cfg(kani)`).
+//!
+//! The Kani model checker cannot symbolically execute hashbrown's SIMD group probing in useful
+//! time, so under `cfg(kani)` the crates of this repository swap their `use std::collections::HashMap`
+//! for this association list. It keeps the *contract* of the std container (a finite map in which
+//! equal keys collide; any iteration order) and replaces its implementation: a fixed-capacity
+//! array, linear search by `Eq`, no hashing, no heap growth. Exceeding [`CAP`] panics, so a proof
+//! harness that needs more entries fails loudly instead of passing silently.
+//!
+//! Normal builds never see this file.
+use std::borrow::Borrow;
+use std::marker::PhantomData;
+
+/// Maximum number of entries in one map. Proof harnesses pick the smallest capacity they need
+/// through the compile-time environment variable `VERIF_MAP_CAP` (default 12): every map operation
+/// is a loop over all slots, so the capacity is a direct factor in the size of the SAT query.
+pub const CAP: usize = parse_cap(option_env!("VERIF_MAP_CAP"));
+
+const fn parse_cap(s: Option<&str>) -> usize {
+    match s {
+        None => 12,
+        Some(s) => {
+            let b = s.as_bytes();
+            let mut n = 0;
+            let mut i = 0;
+            while i < b.len() {
+                assert!(b[i] >= b'0' && b[i] <= b'9');
+                n = n * 10 + (b[i] - b'0') as usize;
+                i += 1;
+            }
+            assert!(n >= 1 && n <= 64);
+            n
+        }
+    }
+}
+
+pub struct HashMap<K, V, S = ()> {
+    slots: [Option<(K, V)>; CAP],
+    _s: PhantomData<S>,
+}
+
+impl<K, V, S> Default for HashMap<K, V, S> {
+    fn default() -> Self {
+        HashMap {
+            slots: std::array::from_fn(|_| None),
+            _s: PhantomData,
+        }
+    }
+}
+
+impl<K, V> HashMap<K, V, ()> {
+    pub fn new() -> Self {
+        Default::default()
+    }
+    pub fn with_capacity(_: usize) -> Self {
+        Default::default()
+    }
+}
+
+impl<K, V, S> HashMap<K, V, S> {
+    pub fn len(&self) -> usize {
+        let mut n = 0;
+        let mut i = 0;
+        while i < CAP {
+            if self.slots[i].is_some() {
+                n += 1;
+            }
+            i += 1;
+        }
+        n
+    }
+    pub fn is_empty(&self) -> bool {
+        self.len() == 0
+    }
+    pub fn reserve(&mut self, _: usize) {}
+    pub fn clear(&mut self) {
+        let mut i = 0;
+        while i < CAP {
+            self.slots[i] = None;
+            i += 1;
+        }
+    }
+    pub fn iter(&self) -> Iter<'_, K, V> {
+        Iter {
+            slots: &self.slots,
+            i: 0,
+        }
+    }
+    pub fn iter_mut(&mut self) -> IterMut<'_, K, V> {
+        IterMut {
+            inner: self.slots.iter_mut(),
+        }
+    }
+    pub fn keys(&self) -> impl Iterator<Item = &K> {
+        self.iter().map(|kv| kv.0)
+    }
+    pub fn values(&self) -> impl Iterator<Item = &V> {
+        self.iter().map(|kv| kv.1)
+    }
+    pub fn values_mut(&mut self) -> impl Iterator<Item = &mut V> {
+        self.iter_mut().map(|kv| kv.1)
+    }
+    pub fn into_values(self) -> impl Iterator<Item = V> {
+        self.into_iter().map(|kv| kv.1)
+    }
+    pub fn into_keys(self) -> impl Iterator<Item = K> {
+        self.into_iter().map(|kv| kv.0)
+    }
+}
+
+impl<K: Eq, V, S> HashMap<K, V, S> {
+    fn find<Q: ?Sized + Eq>(&self, k: &Q) -> Option<usize>
+    where
+        K: Borrow<Q>,
+    {
+        let mut i = 0;
+        while i < CAP {
+            if let Some((key, _)) = &self.slots[i] {
+                if key.borrow() == k {
+                    return Some(i);
+                }
+            }
+            i += 1;
+        }
+        None
+    }
+    fn free_slot(&self) -> usize {
+        let mut i = 0;
+        while i < CAP {
+            if self.slots[i].is_none() {
+                return i;
+            }
+            i += 1;
+        }
+        panic!("verif_map::HashMap capacity exceeded")
+    }
+    pub fn insert(&mut self, k: K, v: V) -> Option<V> {
+        match self.find(&k) {
+            Some(i) => {
+                let old = self.slots[i].take();
+                self.slots[i] = Some((k, v));
+                old.map(|kv| kv.1)
+            }
+            None => {
+                let i = self.free_slot();
+                self.slots[i] = Some((k, v));
+                None
+            }
+        }
+    }
+    pub fn get<Q: ?Sized + Eq>(&self, k: &Q) -> Option<&V>
+    where
+        K: Borrow<Q>,
+    {
+        match self.find(k) {
+            Some(i) => self.slots[i].as_ref().map(|kv| &kv.1),
+            None => None,
+        }
+    }
+    pub fn get_key_value<Q: ?Sized + Eq>(&self, k: &Q) -> Option<(&K, &V)>
+    where
+        K: Borrow<Q>,
+    {
+        match self.find(k) {
+            Some(i) => self.slots[i].as_ref().map(|kv| (&kv.0, &kv.1)),
+            None => None,
+        }
+    }
+    pub fn get_mut<Q: ?Sized + Eq>(&mut self, k: &Q) -> Option<&mut V>
+    where
+        K: Borrow<Q>,
+    {
+        match self.find(k) {
+            Some(i) => self.slots[i].as_mut().map(|kv| &mut kv.1),
+            None => None,
+        }
+    }
+    pub fn contains_key<Q: ?Sized + Eq>(&self, k: &Q) -> bool
+    where
+        K: Borrow<Q>,
+    {
+        self.find(k).is_some()
+    }
+    pub fn remove<Q: ?Sized + Eq>(&mut self, k: &Q) -> Option<V>
+    where
+        K: Borrow<Q>,
+    {
+        match self.find(k) {
+            Some(i) => self.slots[i].take().map(|kv| kv.1),
+            None => None,
+        }
+    }
+    pub fn entry(&mut self, k: K) -> Entry<'_, K, V> {
+        match self.find(&k) {
+            Some(i) => Entry::Occupied(OccupiedEntry {
+                slot: &mut self.slots[i],
+            }),
+            None => {
+                let i = self.free_slot();
+                Entry::Vacant(VacantEntry {
+                    slot: &mut self.slots[i],
+                    key: k,
+                })
+            }
+        }
+    }
+    pub fn extend<I: IntoIterator<Item = (K, V)>>(&mut self, iter: I) {
+        for (k, v) in iter {
+            self.insert(k, v);
+        }
+    }
+}
+
+pub enum Entry<'a, K, V> {
+    Occupied(OccupiedEntry<'a, K, V>),
+    Vacant(VacantEntry<'a, K, V>),
+}
+
+pub struct OccupiedEntry<'a, K, V> {
+    slot: &'a mut Option<(K, V)>,
+}
+
+pub struct VacantEntry<'a, K, V> {
+    slot: &'a mut Option<(K, V)>,
+    key: K,
+}
+
+impl<'a, K, V> OccupiedEntry<'a, K, V> {
+    pub fn get(&self) -> &V {
+        &self.slot.as_ref().unwrap().1
+    }
+    pub fn get_mut(&mut self) -> &mut V {
+        &mut self.slot.as_mut().unwrap().1
+    }
+    pub fn into_mut(self) -> &'a mut V {
+        &mut self.slot.as_mut().unwrap().1
+    }
+    pub fn key(&self) -> &K {
+        &self.slot.as_ref().unwrap().0
+    }
+    pub fn insert(&mut self, v: V) -> V {
+        std::mem::replace(self.get_mut(), v)
+    }
+    pub fn remove(self) -> V {
+        self.slot.take().unwrap().1
+    }
+}
+
+impl<'a, K, V> VacantEntry<'a, K, V> {
+    pub fn insert(self, v: V) -> &'a mut V {
+        *self.slot = Some((self.key, v));
+        &mut self.slot.as_mut().unwrap().1
+    }
+    pub fn key(&self) -> &K {
+        &self.key
+    }
+}
+
+impl<'a, K, V> Entry<'a, K, V> {
+    pub fn or_insert(self, v: V) -> &'a mut V {
+        match self {
+            Entry::Occupied(o) => o.into_mut(),
+            Entry::Vacant(vac) => vac.insert(v),
+        }
+    }
+    pub fn or_insert_with<F: FnOnce() -> V>(self, f: F) -> &'a mut V {
+        match self {
+            Entry::Occupied(o) => o.into_mut(),
+            Entry::Vacant(vac) => vac.insert(f()),
+        }
+    }
+    pub fn or_default(self) -> &'a mut V
+    where
+        V: Default,
+    {
+        self.or_insert_with(Default::default)
+    }
+}
+
+pub struct Iter<'a, K, V> {
+    slots: &'a [Option<(K, V)>; CAP],
+    i: usize,
+}
+
+impl<'a, K, V> Iterator for Iter<'a, K, V> {
+    type Item = (&'a K, &'a V);
+    fn next(&mut self) -> Option<Self::Item> {
+        while self.i < CAP {
+            let i = self.i;
+            self.i += 1;
+            if let Some((k, v)) = &self.slots[i] {
+                return Some((k, v));
+            }
+        }
+        None
+    }
+}
+
+pub struct IterMut<'a, K, V> {
+    inner: std::slice::IterMut<'a, Option<(K, V)>>,
+}
+
+impl<'a, K, V> Iterator for IterMut<'a, K, V> {
+    type Item = (&'a K, &'a mut V);
+    fn next(&mut self) -> Option<Self::Item> {
+        for slot in self.inner.by_ref() {
+            if let Some((k, v)) = slot {
+                return Some((&*k, v));
+            }
+        }
+        None
+    }
+}
+
+pub struct IntoIter<K, V> {
+    slots: [Option<(K, V)>; CAP],
+    i: usize,
+}
+
+impl<K, V> Iterator for IntoIter<K, V> {
+    type Item = (K, V);
+    fn next(&mut self) -> Option<Self::Item> {
+        while self.i < CAP {
+            let i = self.i;
+            self.i += 1;
+            if let Some(kv) = self.slots[i].take() {
+                return Some(kv);
+            }
+        }
+        None
+    }
+}
+
+impl<K, V, S> IntoIterator for HashMap<K, V, S> {
+    type Item = (K, V);
+    type IntoIter = IntoIter<K, V>;
+    fn into_iter(self) -> IntoIter<K, V> {
+        IntoIter {
+            slots: self.slots,
+            i: 0,
+        }
+    }
+}
+
+impl<'a, K, V, S> IntoIterator for &'a HashMap<K, V, S> {
+    type Item = (&'a K, &'a V);
+    type IntoIter = Iter<'a, K, V>;
+    fn into_iter(self) -> Iter<'a, K, V> {
+        self.iter()
+    }
+}
+
+impl<'a, K, V, S> IntoIterator for &'a mut HashMap<K, V, S> {
+    type Item = (&'a K, &'a mut V);
+    type IntoIter = IterMut<'a, K, V>;
+    fn into_iter(self) -> IterMut<'a, K, V> {
+        self.iter_mut()
+    }
+}
+
+impl<K: Eq, V, S> FromIterator<(K, V)> for HashMap<K, V, S> {
+    fn from_iter<I: IntoIterator<Item = (K, V)>>(iter: I) -> Self {
+        let mut m: Self = Default::default();
+        for (k, v) in iter {
+            m.insert(k, v);
+        }
+        m
+    }
+}
+
+impl<K: Eq, V, const N: usize> From<[(K, V); N]> for HashMap<K, V, ()> {
+    fn from(arr: [(K, V); N]) -> Self {
+        arr.into_iter().collect()
+    }
+}
+
+impl<K: Eq, V: PartialEq, S> PartialEq for HashMap<K, V, S> {
+    fn eq(&self, other: &Self) -> bool {
+        if self.len() != other.len() {
+            return false;
+        }
+        for (k, v) in self.iter() {
+            match other.get(k) {
+                Some(v2) if v == v2 => {}
+                _ => return false,
+            }
+        }
+        true
+    }
+}
+
+impl<K: Eq, V: Eq, S> Eq for HashMap<K, V, S> {}
+
+impl<K: Clone, V: Clone, S> Clone for HashMap<K, V, S> {
+    fn clone(&self) -> Self {
+        HashMap {
+            slots: self.slots.clone(),
+            _s: PhantomData,
+        }
+    }
+}
+
+impl<K: std::fmt::Debug, V: std::fmt::Debug, S> std::fmt::Debug for HashMap<K, V, S> {
+    fn fmt(&self, f: &mut std::fmt::Formatter<'_>) -> std::fmt::Result {
+        f.debug_map().entries(self.iter()).finish()
+    }
+}
+
+impl<K: Eq + Borrow<Q>, Q: ?Sized + Eq, V, S> std::ops::Index<&Q> for HashMap<K, V, S> {
+    type Output = V;
+    fn index(&self, k: &Q) -> &V {
+        self.get(k).expect("no entry found for key")
+    }
+}
+
+/// Set with the same representation.
+pub struct HashSet<K, S = ()> {
+    map: HashMap<K, (), S>,
+}
+
+impl<K, S> Default for HashSet<K, S> {
+    fn default() -> Self {
+        HashSet {
+            map: Default::default(),
+        }
+    }
+}
+
+impl<K> HashSet<K, ()> {
+    pub fn new() -> Self {
+        Default::default()
+    }
+}
+
+impl<K: Eq, S> HashSet<K, S> {
+    pub fn insert(&mut self, k: K) -> bool {
+        self.map.insert(k, ()).is_none()
+    }
+    pub fn contains<Q: ?Sized + Eq>(&self, k: &Q) -> bool
+    where
+        K: Borrow<Q>,
+    {
+        self.map.contains_key(k)
+    }
+    pub fn remove<Q: ?Sized + Eq>(&mut self, k: &Q) -> bool
+    where
+        K: Borrow<Q>,
+    {
+        self.map.remove(k).is_some()
+    }
+    pub fn len(&self) -> usize {
+        self.map.len()
+    }
+    pub fn is_empty(&self) -> bool {
+        self.map.is_empty()
+    }
+    pub fn iter(&self) -> impl Iterator<Item = &K> {
+        self.map.keys()
+    }
+}
+
+impl<K: Eq, S> FromIterator<K> for HashSet<K, S> {
+    fn from_iter<I: IntoIterator<Item = K>>(iter: I) -> Self {
+        let mut s: Self = Default::default();
+        for k in iter {
+            s.insert(k);
+        }
+        s
+    }
+}
+
+impl<K: Eq, const N: usize> From<[K; N]> for HashSet<K, ()> {
+    fn from(arr: [K; N]) -> Self {
+        arr.into_iter().collect()
+    }
+}
+
+/// Mirror of the forwarding impl in `collections::groupingmap` (which names
+/// `std::collections::hash_map::Iter` in its associated type and therefore cannot be reused).
+impl<K: Eq + std::hash::Hash + Clone, V> crate::collections::groupingmap::BackingContainer<K, V>
+    for HashMap<K, V>
+{
+    #[inline]
+    fn insert(&mut self, k: K, v: V) {
+        HashMap::insert(self, k, v);
+    }
+    #[inline]
+    fn get(&self, k: &K) -> Option<&V> {
+        HashMap::get(self, k)
+    }
+    #[inline]
+    fn get_mut(&mut self, k: &K) -> Option<&mut V> {
+        HashMap::get_mut(self, k)
+    }
+    #[inline]
+    fn remove(&mut self, k: &K) {
+        HashMap::remove(self, k);
+    }
+    type Iter<'a>
+        = std::iter::Map<Iter<'a, K, V>, fn(i: (&'a K, &'a V)) -> (K, &'a V)>
+    where
+        K: 'a,
+        V: 'a;
+    fn iter(&self) -> Self::Iter<'_> {
+        HashMap::iter(self).map(map_func)
+    }
+    fn len(&self) -> usize {
+        HashMap::len(self)
+    }
+}
+
+fn map_func<'a, K: Clone, V>(i: (&'a K, &'a V)) -> (K, &'a V) {
+    (i.0.clone(), i.1)
+}
+
+/// Maximum depth of a [`Stack`].
+pub const STACK_CAP: usize = 4;
+
+/// Verification-only stand-in for a `Vec<T>` that is used as a stack (push / pop / last_mut /
+/// iteration): inline fixed-capacity storage instead of a heap buffer. A heap `Vec` whose length is
+/// symbolic makes CBMC's pointer encoding of `last_mut()` and of every loop over the stack
+/// intractable (measured: a 4-operation history of the grouping container did not finish in 15 min).
+pub struct Stack<T> {
+    slots: [Option<T>; STACK_CAP],
+    len: usize,
+}
+
+impl<T> Default for Stack<T> {
+    fn default() -> Self {
+        Stack {
+            slots: std::array::from_fn(|_| None),
+            len: 0,
+        }
+    }
+}
+
+impl<T> Stack<T> {
+    pub fn len(&self) -> usize {
+        self.len
+    }
+    pub fn is_empty(&self) -> bool {
+        self.len == 0
+    }
+    pub fn push(&mut self, t: T) {
+        assert!(self.len < STACK_CAP, "verif_map::Stack capacity exceeded");
+        self.slots[self.len] = Some(t);
+        self.len += 1;
+    }
+    pub fn pop(&mut self) -> Option<T> {
+        if self.len == 0 {
+            return None;
+        }
+        self.len -= 1;
+        self.slots[self.len].take()
+    }
+    pub fn last_mut(&mut self) -> Option<&mut T> {
+        if self.len == 0 {
+            return None;
+        }
+        self.slots[self.len - 1].as_mut()
+    }
+    pub fn last(&self) -> Option<&T> {
+        if self.len == 0 {
+            return None;
+        }
+        self.slots[self.len - 1].as_ref()
+    }
+    pub fn iter(&self) -> StackIter<'_, T> {
+        StackIter {
+            slots: &self.slots,
+            front: 0,
+            back: self.len,
+        }
+    }
+    pub fn iter_mut(&mut self) -> impl Iterator<Item = &mut T> {
+        let len = self.len;
+        self.slots.iter_mut().take(len).map(|s| s.as_mut().unwrap())
+    }
+}
+
+pub struct StackIter<'a, T> {
+    slots: &'a [Option<T>; STACK_CAP],
+    front: usize,
+    back: usize,
+}
+
+impl<'a, T> Iterator for StackIter<'a, T> {
+    type Item = &'a T;
+    fn next(&mut self) -> Option<&'a T> {
+        if self.front >= self.back {
+            return None;
+        }
+        let i = self.front;
+        self.front += 1;
+        self.slots[i].as_ref()
+    }
+}
+
+impl<'a, T> DoubleEndedIterator for StackIter<'a, T> {
+    fn next_back(&mut self) -> Option<&'a T> {
+        if self.front >= self.back {
+            return None;
+        }
+        self.back -= 1;
+        self.slots[self.back].as_ref()
+    }
+}
+
+impl<'a, T> IntoIterator for &'a Stack<T> {
+    type Item = &'a T;
+    type IntoIter = StackIter<'a, T>;
+    fn into_iter(self) -> StackIter<'a, T> {
+        self.iter()
+    }
+}
+
+impl<'a, T> IntoIterator for &'a mut Stack<T> {
+    type Item = &'a mut T;
+    type IntoIter = std::iter::Map<
+        std::iter::Take<std::slice::IterMut<'a, Option<T>>>,
+        fn(&'a mut Option<T>) -> &'a mut T,
+    >;
+    fn into_iter(self) -> Self::IntoIter {
+        fn unwrap_mut<T>(s: &mut Option<T>) -> &mut T {
+            s.as_mut().unwrap()
+        }
+        let len = self.len;
+        self.slots
+            .iter_mut()
+            .take(len)
+            .map(unwrap_mut as fn(&'a mut Option<T>) -> &'a mut T)
+    }
+}
+
+impl<T: PartialEq> PartialEq for Stack<T> {
+    fn eq(&self, other: &Self) -> bool {
+        if self.len != other.len {
+            return false;
+        }
+        let mut i = 0;
+        while i < self.len {
+            if self.slots[i] != other.slots[i] {
+                return false;
+            }
+            i += 1;
+        }
+        true
+    }
+}
+
+impl<T: std::fmt::Debug> std::fmt::Debug for Stack<T> {
+    fn fmt(&self, f: &mut std::fmt::Formatter<'_>) -> std::fmt::Result {
+        f.debug_list().entries(self.iter()).finish()
+    }
+}
